@@ -517,3 +517,154 @@ def run(prog: Program, chk: Check) -> None:
     r12_2(prog, chk)
     r12_3(prog, chk)
     r12_4(prog, chk)
+
+
+# --------------------------------------------------------------------- R12.5 / R12.6
+DYN_BUILTINS = {"format", "str", "repr", "ascii", "bool", "hash", "len", "int", "float", "abs", "iter", "next", "sorted", "list", "tuple", "set", "frozenset", "dict", "sum", "min", "max", "round", "divmod", "bytes", "complex"}
+
+
+def _payload_taint(fn: ast.AST) -> Set[str]:
+    """Local names that hold (parts of) a KnownValue payload: assigned from an
+    expression that reads `.val`, or from another tainted local."""
+    tainted: Set[str] = set()
+    for _ in range(4):
+        changed = False
+        for n in walk_no_nested(fn):
+            tgt = val = None
+            if isinstance(n, ast.Assign) and len(n.targets) == 1:
+                tgt, val = n.targets[0], n.value
+            elif isinstance(n, ast.AnnAssign) and n.value is not None:
+                tgt, val = n.target, n.value
+            if isinstance(tgt, ast.Name) and val is not None and tgt.id not in tainted:
+                if _is_payload(val, tainted):
+                    tainted.add(tgt.id)
+                    changed = True
+        if not changed:
+            break
+    return tainted
+
+
+def _is_payload(e: ast.AST, tainted: Set[str]) -> bool:
+    """The expression IS a payload (x.val, a tainted local, a builtin
+    conversion of one), not merely something computed with one."""
+    if isinstance(e, ast.Attribute) and e.attr == "val":
+        return True
+    if isinstance(e, ast.Name) and e.id in tainted:
+        return True
+    if isinstance(e, ast.Call) and isinstance(e.func, ast.Name) and e.func.id in DYN_BUILTINS and e.args:
+        return _is_payload(e.args[0], tainted)
+    if isinstance(e, ast.Subscript):
+        return _is_payload(e.value, tainted)
+    return False
+
+
+def _enclosing_try(node: ast.AST, fn: ast.AST) -> Optional[ast.Try]:
+    child = node
+    p = parent(node)
+    while p is not None and p is not fn:
+        if isinstance(p, ast.Try) and p.handlers and any(child is s or any(x is child for x in ast.walk(s)) for s in p.body):
+            return p
+        child = p
+        p = parent(p)
+    return None
+
+
+def _handler_is_broad(t: ast.Try) -> bool:
+    for h in t.handlers:
+        if h.type is None:
+            return True
+        names = [norm(x) for x in (h.type.elts if isinstance(h.type, ast.Tuple) else [h.type])]
+        if any(n in ("Exception", "BaseException") for n in names):
+            return True
+    return False
+
+
+def _dyn_ops(fn: ast.AST, tainted: Set[str]) -> List[Tuple[ast.AST, str]]:
+    out: List[Tuple[ast.AST, str]] = []
+    for n in walk_no_nested(fn):
+        if isinstance(n, ast.Call):
+            if isinstance(n.func, ast.Name) and n.func.id in DYN_BUILTINS and n.args and _is_payload(n.args[0], tainted):
+                out.append((n, f"{n.func.id}(payload)"))
+            elif _is_payload(n.func, tainted):
+                out.append((n, "call payload"))
+            elif isinstance(n.func, ast.Name) and n.func.id == "type" and False:
+                pass
+        elif isinstance(n, ast.Compare):
+            ops = [n.left] + list(n.comparators)
+            if any(isinstance(o, (ast.Eq, ast.NotEq, ast.Lt, ast.LtE, ast.Gt, ast.GtE, ast.In, ast.NotIn)) for o in n.ops) and any(_is_payload(o, tainted) for o in ops):
+                both = sum(1 for o in ops if _is_payload(o, tainted)) >= 2
+                out.append((n, "compare payload with payload" if both else "compare payload"))
+        elif isinstance(n, ast.BinOp) and (_is_payload(n.left, tainted) or _is_payload(n.right, tainted)):
+            out.append((n, "operator on payload"))
+        elif isinstance(n, ast.UnaryOp) and not isinstance(n.op, ast.Not) and _is_payload(n.operand, tainted):
+            out.append((n, "operator on payload"))
+    return out
+
+
+# try blocks that run user code on a payload but catch a narrow exception type today
+# (module, qualname, operation) -> why it is accepted
+R125_EXCEPTIONS: Dict[Tuple[str, str, str], str] = {
+    ("name_check_visitor", "NameCheckVisitor.visit_Dict", "compare payload"): "dict-literal keys are tested with `key in ret`; only TypeError (unhashable key) is anticipated, a user __hash__/__eq__ raising something else is not handled (latent)",
+    ("value", "KnownValue.__hash__", "hash(payload)"): "only TypeError (unhashable) is anticipated; a user __hash__ raising something else is not handled (latent, documented in the method's comment)",
+}
+
+
+def r12_5(prog: Program, chk: Check) -> None:
+    chk.rule(
+        "R12.5",
+        "guarded evaluation: where a try block runs user code on a literal payload (format/str/repr/hash/len/"
+        "comparison/operator/call on `.val`), its handlers catch Exception, not a narrower type",
+        floor=10,
+    )
+    chk.rule(
+        "R12.6",
+        "two literal payloads are never compared with a raw ==/!=/in: the comparison goes through safe_equals/safe_in "
+        "or runs under `except Exception` (a user __eq__ may raise)",
+        floor=1,
+    )
+    n_pp = 0
+    for m, q, fn in prog.iter_functions():
+        tainted = _payload_taint(fn)
+        ops = _dyn_ops(fn, tainted)
+        seen: Dict[str, int] = {}
+        for node, kind in ops:
+            t = _enclosing_try(node, fn)
+            if kind == "compare payload with payload":
+                n_pp += 1
+                ok = t is not None and _handler_is_broad(t)
+                seen[kind] = seen.get(kind, 0) + 1
+                chk.ob(
+                    "R12.6",
+                    f"{m}::{q}::payload-compare#{seen[kind]}",
+                    ok,
+                    prog.site(m, node),
+                    f"`{norm(node)[:60]}` compares two user payloads without safe_equals / `except Exception`: a user-defined __eq__ that raises becomes an internal_error",
+                )
+                continue
+            if t is None:
+                continue  # unguarded sites rely on preceding type tests; not decided here
+            broad = _handler_is_broad(t)
+            key = f"{m}::{q}::guarded::{kind}"
+            seen[key] = seen.get(key, 0) + 1
+            exc = R125_EXCEPTIONS.get((m, q, kind))
+            chk.ob(
+                "R12.5",
+                key + (f"#{seen[key]}" if seen[key] > 1 else ""),
+                broad or exc is not None,
+                prog.site(m, node),
+                f"`{norm(node)[:60]}` runs user code inside a try whose handlers {[norm(h.type) if h.type else 'bare' for h in t.handlers]} do not include Exception: any other exception escapes as internal_error",
+            )
+    chk.analysed["payload_vs_payload_comparisons"] = n_pp
+    # zero-expected-count rule: keep it from passing vacuously by checking the helper exists and is used
+    se = prog.func("safe", "safe_equals")
+    broad = any(isinstance(t, ast.Try) and _handler_is_broad(t) for t in walk_no_nested(se))
+    uses = sum(len(calls_in(mod.tree, "safe_equals")) for mod in prog.modules.values())
+    chk.ob("R12.6", "safe::safe_equals::catches-everything", broad and uses >= 3, prog.site("safe", se), f"safe_equals must swallow every exception of a user __eq__ (broad handler: {broad}, call sites: {uses})")
+
+
+_old_run = run
+
+
+def run(prog: Program, chk: Check) -> None:  # noqa: F811
+    _old_run(prog, chk)
+    r12_5(prog, chk)
